@@ -124,6 +124,24 @@ Theorem C05_handler_roundtrip : forall authn rq p ty v rest,
   bind_param authn rq p = BArg (AVal (Some v)).
 Proof. exact bind_param_roundtrip. Qed.
 
+(* documented `required` (the flag of the emitted parameter object, [Spec.param_required]) = enforced:
+   without the parameter a request is refused iff the document says required, and otherwise the method
+   receives nil *)
+Theorem C05_documented_required_is_enforced : forall authn rq p ty,
+  scalar_param p -> prim_of (pa_type p) = Some ty -> only_required (reduced_validator p) ->
+  (lookup (rq_fields rq) (pa_loc p) (wire_name p) = None \/ lookup (rq_fields rq) (pa_loc p) (wire_name p) = Some []) ->
+  (op_required (mk_oparam p) = true -> bind_param authn rq p = BReject) /\
+  (op_required (mk_oparam p) = false -> bind_param authn rq p = BArg (AVal None)).
+Proof. exact documented_required_is_enforced. Qed.
+
+(* static translation => dynamic model: the strconv statement the translator found in a generated handler
+   (per-run obligation [tparam_ok], evaluated on every generated file of every engine) computes exactly the
+   model's conversion of the declared type, for every raw text *)
+Theorem C05_translated_conversion_is_model_conversion : forall e p t ty raw,
+  tparam_ok e p t = true -> pa_loc p <> LBody -> prim_of (pa_type p) = Some ty ->
+  go_strconv (tp_conv t) (tp_bits t) raw = convert ty raw.
+Proof. exact translated_conversion_is_model_conversion. Qed.
+
 Example C05_handler_nonvacuous :
   snd (handle demo_cfg demo_ctrl demo_method [] (mkOp false None) (demo_rq "128" "7")) = Rejected (s "id") /\
   snd (handle demo_cfg demo_ctrl demo_method [] (mkOp false None) (demo_rq "5" "2")) = Rejected (s "q").
@@ -148,3 +166,5 @@ Print Assumptions C05_bad_param_never_invoked.
 Print Assumptions C05_rejected_first.
 Print Assumptions C05_handler_roundtrip.
 Print Assumptions C05_handler_nonvacuous.
+Print Assumptions C05_documented_required_is_enforced.
+Print Assumptions C05_translated_conversion_is_model_conversion.
